@@ -105,6 +105,13 @@ func refWindow(rc refCfg, attempt int) (lo, hi, mid time.Duration) {
 // tol absorbs float64 rounding and the truncation to whole nanoseconds of the implementation's delay.
 const tol = 2 * time.Nanosecond
 
+// scheduleCountsFromFailure: the statement bounds the retry schedule "after the failure". The delay handed to the
+// store counts from the moment the lease mutation is applied; the two moments differ (in virtual time) only when
+// the mutation of a micro-batch waits for the other deliveries of the batch. true = judge the upper bound
+// literally, from the failure (finding schedule:later-than-upper-bound-after-failure:deferred-lease-mutation on
+// the unchanged tree); false = bound the delay value only and keep the deferral as an info counter.
+const scheduleCountsFromFailure = true
+
 // ---- judge -------------------------------------------------------------------
 
 type Finding struct {
@@ -274,7 +281,7 @@ func judge(sp Spec, res Result) ([]Finding, judgeStats) {
 					if lag > js.maxLag {
 						js.maxLag = lag
 					}
-					if s.Delay <= hi+tol && lag+s.Delay > hi+tol {
+					if scheduleCountsFromFailure && s.Delay <= hi+tol && lag+s.Delay > hi+tol {
 						add("schedule:later-than-upper-bound-after-failure:deferred-lease-mutation",
 							"%s; the retry delay %s is inside the window [%s,%s] but the nack was applied %s after the failure (virtual time, after the other deliveries of the dequeue micro-batch), so the retry is scheduled %s after the failure, later than the upper bound %s",
 							ctx, s.Delay, lo, hi, lag, lag+s.Delay, hi)
